@@ -214,7 +214,13 @@ pub fn check_spec(spec: &RuleSpec, level: u8, doc_cap: usize, order_cap: u64) ->
                     replay: replay_json(&yaml, var.sw, &var.choices, Some(doc)),
                 });
             } else if want != got && base3[i] != 2 {
-                let sig = optrep::localise(&var.staged, doc);
+                // recorded finding: the *unoptimised* verdict is the wrong one (a lone all() block
+                // counted across array elements); evaluated element by element it agrees with
+                // the optimised rule
+                let lone = eng::lone_all_blocks(&ex.base.expr, &ex.base.ids);
+                let explained = lone.iter().any(|f| matches!(crate::refint::lookup(doc, f), Some(crate::mdoc::MVal::Arr(_))))
+                    && eng::val3_without_lone_all_shortcut(&ex.base.expr, &ex.base.ids, doc).map(|c| (c == 1) == got).unwrap_or(false);
+                let sig = if explained { eng::LONE_ALL_SIGNATURE.to_string() } else { optrep::localise(&var.staged, doc) };
                 st.push_violation(Violation {
                     signature: sig,
                     witness: format!(
